@@ -204,7 +204,8 @@ def _one_path(db, chk, where, TR, run_, calls, ptag):
         if ok:
             vals[which] = d["ts"]
     if set(vals) != {"COMMUNICATION", "COMPUTATION"}:
-        chk.ob("C07.R1-sweep", "one marker map per operand", False if not T.has_opaque(ratio) else None, where, found=[d for _, d in maps], accepted="two maps")
+        # (no marker at all: another sweep algorithm than the +-marker template - not understood; markers found but not one per operand: wrong)
+        chk.ob("C07.R1-sweep", "one marker map per operand", False if (maps and not T.has_opaque(ratio)) else None, where, found=[d for _, d in maps] or "no +-marker sweep recognised in the ratio", accepted="two maps")
         return
     a, b = vals["COMMUNICATION"], vals["COMPUTATION"]
     chk.ob("C07.R1-sweep", "a+b differs from 0, a and b (overlap state is distinguishable)", (a + b) not in (0, a, b), where, found={"a": a, "b": b}, accepted="a, b, a+b non-zero")
